@@ -28,7 +28,9 @@ def main():
     except BaseException:
         traceback.print_exc()
         print("MACHINERY-FAILURE property=%s driver crashed" % pid)
-        return 2
+        from vlib import common
+        # a violation that was already reported stays a violation: exit 1 (the crash only cut the exploration short)
+        return 1 if common.PRINTED_VIOLATIONS else 2
 
 
 if __name__ == "__main__":
